@@ -11,7 +11,7 @@ class C14(OutstationProp):
             "the retry delay, retry limits none/0/1/2; non-trivial = a fragment was transmitted")
 
     def cases(self, rng, tier):
-        n = 300 if tier == "quick" else 5000
+        n = 500 if tier == "quick" else 5000
         out = []
         for i in range(n):
             cfg = self.base_cfg(rng, unsol=1)
